@@ -322,7 +322,10 @@ func c18Run(scratch string, c c18Case) (string, string) {
 			if rc.Orig != "" {
 				w = rc.Orig
 			}
-			k, _ := address.ForLookup(w)
+			k, kerr := address.ForLookup(w)
+			if kerr != nil {
+				k = w
+			}
 			if !seenWant[k] {
 				seenWant[k] = true
 				wantNames = append(wantNames, k)
@@ -552,6 +555,10 @@ func TestVerifC18(t *testing.T) {
 		{{Addr: "t1@example.org", Orig: "list@example.org"}, {Addr: "t2@example.org", Orig: "list@example.org"}},
 		{{Addr: "final@example.org", Mid: "mid@example.org", Orig: "a@example.org"}, {Addr: "b@example.org"}},
 		{{Addr: "a@пример.рф"}, {Addr: "b@example.org", Orig: "b@xn--e1afmkfd.xn--p1ai"}},
+		// domains that are no host names in the strict sense but legal in an address: an
+		// underscore label, an address literal, letter case as the sender wrote it
+		{{Addr: "a@mail_gw.example.org"}, {Addr: "Tester2@MAIL.Example.ORG"}},
+		{{Addr: "user@[192.0.2.25]"}, {Addr: "b@example.org"}},
 	}
 	if vx.Thorough() {
 		shapes = append(shapes, []c18Rcpt{{Addr: "a@example.org"}, {Addr: "b@example.org", Orig: "bb@example.org"}, {Addr: "c@пример.рф"}},
